@@ -26,11 +26,11 @@ PROPS = {
                 relevant={"pub", "pull", "sread"}),
     "C10": dict(module="Deltio.Props.C10", p1=True, conc=[("namerace", 600, 20000)], trace_kinds={"attach", "remove", "delete", "delete.begin", "delete.end"}, seq=[("namespace", 300, 12000, 50)], pure=[],
                 relevant={"ctopic", "gtopic", "dtopic", "csub", "gsub", "dsub", "pub", "pull", "ack", "mod", "lsubs", "ltopics", "ltsubs"}),
-    "C11": dict(module="Deltio.Props.C11", p1=True, conc=[("namerace", 600, 20000), ("delete", 100, 3000)], trace_kinds={"attach", "remove", "delete", "delete.begin", "delete.end"}, seq=[("namespace", 300, 12000, 50), ("general", 100, 4000, 40)], pure=[],
+    "C11": dict(module="Deltio.Props.C11", p1=True, conc=[("namerace", 600, 20000), ("delete", 100, 3000), ("multicreate", 200, 5000)], trace_kinds={"attach", "remove", "delete", "delete.begin", "delete.end"}, seq=[("namespace", 300, 12000, 50), ("general", 100, 4000, 40)], pure=[],
                 relevant={"dsub", "dtopic", "ltsubs", "wtsubs", "gsub", "lsubs", "wsubs", "stats", "ctopic", "csub", "pub", "pull"}),
     "C13": dict(module="Deltio.Props.C13", trace_kinds={"attach", "remove"}, seq=[("namespace", 250, 10000, 50)], pure=["tokens"],
                 relevant={"ltopics", "lsubs", "ltsubs", "wtopics", "wsubs", "wtsubs"}),
-    "C15": dict(module="Deltio.Props.C15", conc=[("mix", 60, 3000), ("wake", 60, 3000)], trace_kinds={"pull", "pull.count"}, seq=[("batches", 80, 3000, 40), ("data", 100, 4000, 50), ("bigbacklog", 2, 12, 0)], pure=[],
+    "C15": dict(module="Deltio.Props.C15", conc=[("mix", 60, 3000), ("wake", 60, 3000)], trace_kinds={"pull", "pull.count"}, seq=[("batches", 80, 3000, 40), ("data", 100, 4000, 50), ("general", 100, 4000, 40), ("bigbacklog", 2, 12, 0)], pure=[],
                 relevant={"pull", "sread", "sopen"}),
     "C17": dict(module="Deltio.Props.C17", trace_kinds=set(), seq=[("malformed", 300, 12000, 50)], pure=["names", "tokens", "ext", "ackids"],
                 relevant=ALL_SEQ_OPS),
